@@ -369,7 +369,11 @@ func genC02(r *Rng, idx int, tier string) *Scenario {
 	for i := 0; i < nf; i++ {
 		dg := r.Intn(nmsg)
 		st := Step{Op: "deliver", Dgram: dg, Rx: rx(), Obj: obj()}
-		switch r.Intn(16) {
+		switch r.Intn(17) {
+		case 16: // the genuine datagram is accepted, then a copy corrupted in a way weak checksums do not notice arrives
+			st.Obj = Pick(r, "long", "long", "peer")
+			sc.Steps = append(sc.Steps, Step{Op: "deliver", Dgram: dg, Rx: rx(), Obj: st.Obj})
+			st.Fault = genChecksumPreserving(r, Pick(r, 76, 76, 120))
 		case 14, 15: // format-aware extension: a (mutated) valid payload of the type the SK header announces
 			m := msgs[dg]
 			if len(m.Payloads) == 0 {
